@@ -158,6 +158,7 @@ def run_with_injection(m, ctx, tid, case, obs, inject, inj_state, inflight, pid_
             inj_state["count"] += 1
             if k is None:
                 inj_state.setdefault("funcs", []).append(frame.f_code.co_name)
+                inj_state.setdefault("lines", []).append(frame.f_lineno)
             if k is not None and inj_state["count"] == k and inj_state["fired"] is None:
                 inj_state["fired"] = {"live": [pid_task[p] for p in inflight], "where": os.path.basename(frame.f_code.co_filename),
                                       "line": frame.f_lineno, "func": frame.f_code.co_name, "vanished": []}
@@ -207,6 +208,7 @@ def run_with_injection(m, ctx, tid, case, obs, inject, inj_state, inflight, pid_
     obs.abort["fired"] = inj_state["fired"]
     obs.abort["events"] = inj_state["count"]
     obs.abort["funcs"] = inj_state.get("funcs")
+    obs.abort["lines"] = inj_state.get("lines")
     obs.abort["kills"] = list(kills)
     obs.abort["finished_ok"] = [r[1] for r in trace if r[0] == "finish" and r[2] == 0]
     obs.plan = None
